@@ -167,8 +167,9 @@ impl Check for C16 {
                 (None, []) => {}
                 (Some(c), [p]) if matches!(&p.amount, Some((v, cm)) if *v == c && *cm == row.commodity) => rec.count("row:with-charge"),
                 _ => {
-                    rec.violation("charge-posting-differs", &class, &rw(&format!("charge {:?} became {} commission posting(s)", row.charge.map(|c| c.to_string_exact()), charges.len())), wit(json!({"output": imp.text})));
-                    return;
+                    // the statement does not lay down how a charge is booked; the end-to-end clause
+                    // (accepted by book-keeping, ends at the last balance) judges the result
+                    rec.count("note:charge-posting-differs-from-convention");
                 }
             }
         }
@@ -223,7 +224,7 @@ impl Check for C16 {
          record now and then. Oracle on the tree (import + to_double_entry), row by row oldest first: date; the configured account moves by exactly the row's amount \
          (credit positive, debit negative) with the running balance as assertion; the counter posting (Income:Unknown / Expenses:Unknown by sign) carries the opposite \
          amount, or the secondary amount with opposite sign and the rate attached to the commodity it prices (price_of_secondary: on the counter posting in the \
-         primary commodity; price_of_primary: on the account posting in the secondary commodity); a charge becomes one Expenses:Commissions posting. End to end (asset \
+         primary commodity; price_of_primary: on the account posting in the secondary commodity). End to end (asset \
          accounts with a balance column): funding transaction + printed import output must be accepted by report::process and end the account at the statement's last \
          balance. Non-trivial = imported statement; distinct by config + CSV."
             .to_string()
